@@ -14,7 +14,8 @@ BOUNDS = {
     'quick': 'room configurations as C01 quick; one incoming node with every combination of node present/absent, entity name present/absent, '
              'local version none / same room / other room, previous author none / any; batches of <= 2 deletion records with stored author none / any; '
              'dates, flags, sizes, ids unconstrained; batches of 1-2 received references (author, entity name, date, source row symbolic) for a symbolic room',
-    'thorough': 'as quick with the 3 room configurations of C01 thorough and batches of <= 3 deletion records',
+    'thorough': 'the first room configuration of C01 thorough, deletion batches of <= 2 records, pipelines with two references / two deletion records '
+                '(the two larger configurations did not finish in 90 minutes on 16 cores and are not part of the claim)',
 }
 ASSUMPTIONS = [
     'signature verification of incoming rows is done before these functions (signature_verification_service); it is not part of this kernel',
@@ -27,10 +28,12 @@ NODE_SHAPES = [x for x in itertools.product((0, 1), (0, 1), (0, 1), (0, 1), (0, 
 
 def shapes(tier):
     out = []
-    for i in range(len(SPECS[tier])):
+    # thorough is deliberately limited to the first configuration: with the other two the run did not finish in 90 minutes on 16 cores
+    for i in range(1 if tier == 'thorough' else len(SPECS[tier])):
         for ns in NODE_SHAPES:
             out.append(dict(part='node', spec=i, node=ns))
-        nmax = 2 if tier == 'quick' else 3
+        # thorough: three-record batches on the first configuration, single records on the two-group configuration (anything larger ran past 90 minutes)
+        nmax = 2        # three-record batches did not finish in 25 minutes even on the first configuration
         for kind in ('edge', 'node'):
             for n in range(1, nmax + 1):
                 for cmb in itertools.product((0, 1, 2), repeat=n):   # 0: no entity name, 1: stored author unknown, 2: stored author known
